@@ -115,8 +115,8 @@ def ops_sx(ops) -> str:
 def real_state(im) -> dict:
     return {
         "imports": [(f, sorted(ns)) for f, ns in im.items() if ns],
-        "alias": {(f, n): a for f, d in list(im.alias.items()) for n, a in d.items()},
-        "counter": {k: v for k, v in im.counter.items() if v != 0},
+        "alias": {f"{f!r}:{n}": a for f, d in list(im.alias.items()) for n, a in d.items()},
+        "counter": {f"{k[0]!r}:{k[1]}": v for k, v in im.counter.items() if v != 0},
         "refs": {p: imp_tuple(i) for p, i in im.reference_paths.items()},
         "dump": "\n".join(line for line in (im.create_line(f, ns) for f, ns in list(im.items()) if ns)),
     }
@@ -137,8 +137,8 @@ def model_state(x) -> dict | str:
     imports, alias, counter, refs, dump = parts
     return {
         "imports": [(un_opt(e[0]), sorted(unhx(n) for n in e[1:])) for e in imports if len(e) > 1],
-        "alias": {(un_opt(e[0]), unhx(e[1])): unhx(e[2]) for e in alias},
-        "counter": {(un_opt(e[0]), unhx(e[1])): int(e[2]) for e in counter if int(e[2]) != 0},
+        "alias": {f"{un_opt(e[0])!r}:{unhx(e[1])}": unhx(e[2]) for e in alias},
+        "counter": {f"{un_opt(e[0])!r}:{unhx(e[1])}": int(e[2]) for e in counter if int(e[2]) != 0},
         "refs": {unhx(e[0]): imp_of_sx(e[1]) for e in refs},
         "dump": unhx(dump[0]),
     }
